@@ -20,6 +20,7 @@ import time
 ROOT = os.path.dirname(os.path.abspath(__file__))
 sys.path.insert(0, os.path.join(ROOT, 'vx'))
 sys.path.insert(0, os.path.join(ROOT, 'kani'))
+sys.path.insert(0, ROOT)
 import extract  # noqa: E402
 
 REPO = os.environ.get('VERIF_REPO', '/repo')
@@ -31,7 +32,7 @@ VERIFICATION_MSG = re.compile(
     r'^(precondition not satisfied|postcondition not satisfied|assertion failed|'
     r'invariant not satisfied|loop invariant|possible arithmetic underflow/overflow|'
     r'possible division by zero|decreases not satisfied|possible bit shift underflow/overflow|'
-    r'requires not satisfied|index out of bounds|unreachable|could not prove termination|recursive call .* decreases|'
+    r'requires not satisfied|precondition not met|index out of bounds|unreachable|could not prove termination|recursive call .* decreases|'
     r'cannot show invariant|failed to (prove|show)|constructed value may fail to meet its declared type invariant)')
 RLIMIT_MSG = re.compile(r'(Resource limit|rlimit|timed out|timeout)', re.I)
 
